@@ -37,6 +37,9 @@ def norm_sql(s: str) -> str:
     s = re.sub(r"\s+", " ", sqlexpr.strip_comments(s)).strip()
     s = re.sub(r"\(\s+", "(", s)
     s = re.sub(r"\s+\)", ")", s)
+    # spellings that SQLite treats alike
+    s = re.sub(r"\bINNER JOIN\b", "JOIN", s)
+    s = s.replace("<>", "!=")
     return s
 
 
@@ -51,6 +54,74 @@ class _Strip(ast.NodeTransformer):
                 and isinstance(v.func.value, ast.Name) and v.func.value.id == "logger":
             return None
         return node
+
+
+def _is_logger_call(node) -> bool:
+    v = node.value if isinstance(node, ast.Expr) else None
+    return (isinstance(v, ast.Call) and isinstance(v.func, ast.Attribute)
+            and isinstance(v.func.value, ast.Name) and v.func.value.id == "logger")
+
+
+class _Canon(ast.NodeTransformer):
+    """Harmless rewrites that must not matter for a pinned function: docstrings, logger calls (also when guarded by
+    `if logger.isEnabledFor(...)`), the names of local variables (renamed in order of first binding), `pass`."""
+
+    def __init__(self, fn):
+        self.names = {}
+        args = fn.args
+        bound = [a.arg for a in args.posonlyargs + args.args + args.kwonlyargs]
+        for a in (args.vararg, args.kwarg):
+            if a is not None:
+                bound.append(a.arg)
+        for node in ast.walk(fn):
+            if isinstance(node, ast.Name) and isinstance(node.ctx, ast.Store):
+                bound.append(node.id)
+            elif isinstance(node, ast.ExceptHandler) and node.name:
+                bound.append(node.name)
+        for n in bound:
+            if n not in self.names and n not in ("self", "cls"):
+                self.names[n] = f"v{len(self.names)}"
+
+    def visit_Name(self, node):
+        if node.id in self.names:
+            return ast.copy_location(ast.Name(id=self.names[node.id], ctx=node.ctx), node)
+        return node
+
+    def visit_arg(self, node):
+        if node.arg in self.names:
+            node.arg = self.names[node.arg]
+        return node
+
+    def visit_If(self, node):
+        self.generic_visit(node)
+        t = node.test
+        if (isinstance(t, ast.Call) and isinstance(t.func, ast.Attribute) and t.func.attr == "isEnabledFor"
+                and isinstance(t.func.value, ast.Name) and t.func.value.id == "logger" and not node.orelse
+                and all(_is_logger_call(b) or isinstance(b, ast.Pass) for b in node.body)):
+            return None
+        if not node.body:
+            node.body = [ast.Pass()]
+        return node
+
+    def visit_Expr(self, node):
+        v = node.value
+        if isinstance(v, ast.Constant) and isinstance(v.value, str):
+            return None
+        if _is_logger_call(node):
+            return None
+        return self.generic_visit(node)
+
+
+def canon_fn_node(fn) -> str:
+    fn = _Canon(fn).visit(fn)
+    # keyword arguments at call sites keep their names (they belong to the callee)
+    ast.fix_missing_locations(fn)
+    return ast.unparse(fn)
+
+
+def canon_fn_text(text: str) -> str:
+    mod = ast.parse(text)
+    return canon_fn_node(mod.body[0])
 
 
 def norm_fn(rel: str, name: str, cls: str | None) -> str:
@@ -104,7 +175,7 @@ def check_pins():
             # the initial value of `first` is translated (first_round_value), everything else is pinned
             exp = _FIRST0_RE.sub(r"\1first = <FIRST0>", exp, count=1)
             text = _FIRST0_RE.sub(r"\1first = <FIRST0>", text, count=1)
-        if exp.rstrip("\n") != text.rstrip("\n"):
+        if exp.rstrip("\n") != text.rstrip("\n") and canon_fn_text(exp) != canon_fn_text(text):
             raise TranslatorError(f"source of {key} differs from the shape the model mirrors")
 
 
@@ -232,11 +303,6 @@ def expected_sql(E, frag, ru, dir_range):
         "JOIN node AS input_node ON input_node.i = dep.source "
         "LEFT JOIN dynamic_dep ON dynamic_dep.i = dep.i WHERE dep.sink = step.node AND (" + ui + ")), "
         "_check_ready = 0 WHERE _check_ready")
-    x["SELECT_NEXT_STEP"] = (
-        "SELECT node.i, node.label, step._has_hash FROM step INDEXED BY step_dispatch "
-        "JOIN node ON node.i = step.node WHERE " + dw + " AND step._implied_need > ? AND NOT node.detached AND "
-        "(step._has_hash OR NOT EXISTS (" + ru + ")) ORDER BY step._has_hash DESC, "
-        f"(step._implied_need = {ND.PLAN.value}) DESC, step._tail_time / (1 + step.defer_count) DESC LIMIT 1")
     x["RECURSIVE_CHECK_WITH_PRODUCTS"] = (
         "UPDATE step SET _check_safe = 1, _check_after = 1 FROM (WITH RECURSIVE check_with_products(node) AS ("
         "SELECT node FROM step WHERE node = ? UNION ALL SELECT i FROM node JOIN check_with_products "
@@ -387,40 +453,36 @@ RECONCILE_LOOP_NO_FLAG = RECONCILE_LOOP[:RECONCILE_LOOP.index("\n    creator = f
 
 
 def parse_reconcile_targets(E) -> tuple[bool, bool, bool]:
-    """Which of the three flagging parts Workflow.reconcile_targets has (each compared with the shape the model
-    interprets; any other statement: fail closed):
+    """Which of the three flagging parts Workflow.reconcile_targets has.  The function is compared, after the
+    canonicalisation of pinned functions (docstrings, logger calls, names of locals), with the twelve functions that
+    can be assembled from
       stale  self.db.execute(f"UPDATE step SET _check_after = 1 WHERE _implied_need = {Need.TARGET.value}")
       exact  the loop over sorted(self.targets) that flags the creator step of an attached target file
-      dirs   self.db.execute(RECONCILE_TARGET_DIRS)"""
+             (or the same loop without its last two statements: validation only -> part missing)
+      dirs   self.db.execute(RECONCILE_TARGET_DIRS)
+    in this order; anything else: fail closed."""
     fn = find_function(parse_module(f"{CORE}/workflow.py"), "reconcile_targets", "Workflow")
-    fn = _Strip().visit(fn)
-    ast.fix_missing_locations(fn)
-    stale = exact = dirs = False
-    for node in fn.body:
-        text = ast.unparse(node)
-        if text == "self.db.execute(RECONCILE_TARGET_DIRS)" and not dirs:
-            dirs = True
-        elif text == RECONCILE_LOOP and not exact and not dirs:
-            exact = True
-        elif text == RECONCILE_LOOP_NO_FLAG and not exact and not dirs:
-            pass    # the loop only validates the targets: part 2 is missing
-        elif isinstance(node, ast.Expr) and isinstance(node.value, ast.Call) and not stale and not exact and not dirs \
-                and ast.unparse(node.value.func) == "self.db.execute" and len(node.value.args) == 1 \
-                and isinstance(node.value.args[0], ast.JoinedStr):
-            parts = []
-            for v in node.value.args[0].values:
-                if isinstance(v, ast.Constant):
-                    parts.append(v.value)
-                elif ast.unparse(v.value) == "Need.TARGET.value":
-                    parts.append(str(E.Need.TARGET.value))
-                else:
-                    raise TranslatorError("reconcile_targets: unexpected interpolation in the stale-elevation UPDATE")
-            if norm_sql("".join(parts)) != f"UPDATE step SET _check_after = 1 WHERE _implied_need = {E.Need.TARGET.value}":
-                raise TranslatorError("reconcile_targets: first UPDATE not recognised")
-            stale = True
-        else:
-            raise TranslatorError(f"reconcile_targets: statement not recognised: {text.splitlines()[0]!r}")
-    return stale, exact, dirs
+    # the stale-elevation UPDATE must name Need.TARGET
+    for node in ast.walk(fn):
+        if isinstance(node, ast.JoinedStr):
+            for v in node.values:
+                if not isinstance(v, ast.Constant) and ast.unparse(v.value) != "Need.TARGET.value":
+                    raise TranslatorError("reconcile_targets: unexpected interpolation in an SQL text")
+    got = canon_fn_node(fn)
+    stale_stmt = 'self.db.execute(f"UPDATE step SET _check_after = 1 WHERE _implied_need = {Need.TARGET.value}")'
+    dirs_stmt = "self.db.execute(RECONCILE_TARGET_DIRS)"
+
+    def indent(text):
+        return "\n".join("    " + line for line in text.splitlines())
+
+    for stale in (True, False):
+        for loop, exact in ((RECONCILE_LOOP, True), (RECONCILE_LOOP_NO_FLAG, False), (None, False)):
+            for dirs in (True, False):
+                body = ([stale_stmt] if stale else []) + ([loop] if loop else []) + ([dirs_stmt] if dirs else [])
+                text = "def reconcile_targets(self):\n" + "\n".join(indent(b) for b in (body or ["pass"]))
+                if canon_fn_text(text) == got:
+                    return stale, exact, dirs
+    raise TranslatorError("reconcile_targets: not one of the shapes the model interprets")
 
 
 # ---------------------------------------------------------------------------------------------
@@ -443,6 +505,39 @@ def parse_dir_range(text: str) -> tuple[str, tuple[str, str]]:
     if not m2:
         raise TranslatorError(f"UPDATE_CHECK_AFTER: directory-target range not recognised: {rng!r}")
     return rng, (_CMP[m2.group(1)], _CMP[m2.group(2)])
+
+
+# ---------------------------------------------------------------------------------------------
+# SELECT_NEXT_STEP: frame compared, WHERE translated conjunct by conjunct
+# ---------------------------------------------------------------------------------------------
+
+SN_HEAD = ("SELECT node.i, node.label, step._has_hash FROM step INDEXED BY step_dispatch "
+           "JOIN node ON node.i = step.node WHERE ")
+
+
+def parse_select_next_step(text: str, dw: str, ru: str, plan_need: int) -> list[str]:
+    """The dispatch query: SELECT list, FROM / JOIN, ORDER BY and LIMIT are compared literally; the WHERE clause must
+    be the shared fragment STEP_DISPATCH_WHERE followed by conjuncts that the model interprets (Sched.sn_atom_holds)."""
+    tail = (f" ORDER BY step._has_hash DESC, (step._implied_need = {plan_need}) DESC, "
+            "step._tail_time / (1 + step.defer_count) DESC LIMIT 1")
+    if not (text.startswith(SN_HEAD) and text.endswith(tail)):
+        raise TranslatorError("SQL constant SELECT_NEXT_STEP: frame differs from the shape the model re-expresses")
+    where = text[len(SN_HEAD):len(text) - len(tail)]
+    atoms = []
+    if where.startswith(dw + " AND "):
+        atoms.append("SnDispatchWhere")
+        where = where[len(dw) + 5:]
+    elif where == dw:
+        return ["SnDispatchWhere"]
+    else:
+        raise TranslatorError("SELECT_NEXT_STEP: WHERE does not start with STEP_DISPATCH_WHERE")
+    known = {"step._implied_need > ?": "SnAboveThreshold", "NOT node.detached": "SnAttached",
+             "(step._has_hash OR NOT EXISTS (" + ru + "))": "SnHashOrResources"}
+    for conj in split_top_and(where):
+        if conj not in known or known[conj] in atoms:
+            raise TranslatorError(f"SELECT_NEXT_STEP: WHERE conjunct not recognised: {conj[:80]!r}")
+        atoms.append(known[conj])
+    return atoms
 
 
 # ---------------------------------------------------------------------------------------------
@@ -496,6 +591,10 @@ TARGETS = [
     (r"node IN \(SELECT sink FROM dependency WHERE source = (NEW|OLD)\.(node|i)\)", ["TConsumersOfSelf"]),
     (r"node = \(SELECT sink FROM dependency WHERE i = (NEW|OLD)\.i\)", ["TSinkOfDep"]),
     (r"node IN \(SELECT source FROM dependency WHERE sink = (NEW|OLD)\.source\)", ["TProducersOfSource"]),
+    # the same, narrowed: "... only when no other attached node still consumes the file"
+    (r"node IN \(SELECT source FROM dependency WHERE sink = (NEW|OLD)\.source\) AND NOT EXISTS \(SELECT 1 FROM "
+     r"dependency AS (\w+) JOIN node AS (\w+) ON \3\.i = \2\.sink WHERE \2\.source = \1\.source AND NOT \3\.detached\)",
+     ["TProducersOfSourceUnlessShared"]),
 ]
 
 
@@ -772,12 +871,14 @@ def generate():
     dir_range, dir_ops = parse_dir_range(norm_sql(_const(SC, "UPDATE_CHECK_AFTER")))
     facts["after_dir_range"] = list(dir_ops)
     exp = expected_sql(E, frag, ru_text, dir_range)
+    sn_atoms = parse_select_next_step(norm_sql(_const(SC, "SELECT_NEXT_STEP")), frag["STEP_DISPATCH_WHERE"], ru_text,
+                                      ND.PLAN.value)
+    facts["select_next_where"] = sn_atoms
     actual = {
         "APPLY_SAFE_UPDATE": _const(SC, "APPLY_SAFE_UPDATE"), "SEED_CHECK_AFTER": _const(SC, "SEED_CHECK_AFTER"),
         "UPDATE_CHECK_AFTER": _const(SC, "UPDATE_CHECK_AFTER"),
         "PROPAGATE_CHECK_AFTER": _const(SC, "PROPAGATE_CHECK_AFTER"),
         "RECOMPUTE_READY": _const(SC, "RECOMPUTE_READY"),
-        "SELECT_NEXT_STEP": _const(SC, "SELECT_NEXT_STEP"),
         "RECURSIVE_CHECK_WITH_PRODUCTS": _const(ST, "RECURSIVE_CHECK_WITH_PRODUCTS"),
         "RECONCILE_TARGET_DIRS": _const(WF, "RECONCILE_TARGET_DIRS"),
         "CREATE_OPTIONAL_STEP_TABLE": _const(FI, "CREATE_OPTIONAL_STEP_TABLE"),
@@ -906,6 +1007,9 @@ def generate():
     o.append("(* scheduler.SELECT_NEXT_STEP / RESOURCE_UNAVAILABLE / _get_next_step *)")
     o.append(f"Definition resource_running_state : N := {SS.RUNNING.value}.")
     o.append("(* scheduler.RESOURCE_UNAVAILABLE: which steps' units are subtracted from the available ones *)")
+    o.append("(* scheduler.SELECT_NEXT_STEP: the conjuncts of its WHERE clause *)")
+    o.append("Inductive sn_atom := SnDispatchWhere | SnAboveThreshold | SnAttached | SnHashOrResources.")
+    o.append(f"Definition sn_where : list sn_atom := {lst(sn_atoms)}.")
     o.append("Inductive ru_atom := RuRunning | RuAttached.")
     o.append(f"Definition ru_where : list ru_atom := {lst(ru_atoms)}.")
     o.append(f"Definition dispatch_state_with_hash : N := {SS.CHECKING.value}.")
@@ -914,7 +1018,8 @@ def generate():
     o.append(f"Definition threshold_with_targets : N := {ND.DEFAULT.value}.")
     o.append("(* STEP_SCHEMA triggers: which flag is raised on which step *)")
     o.append("Inductive flagcol := FSafe | FAfter | FReady.")
-    o.append("Inductive ttarget := TSelf | TSource | TSink | TConsumersOfSelf | TSinkOfDep | TProducersOfSource.")
+    o.append("Inductive ttarget := TSelf | TSource | TSink | TConsumersOfSelf | TSinkOfDep | TProducersOfSource "
+             "| TProducersOfSourceUnlessShared.")
     names = {"step_dependency_check_after_ins": "trg_dep_ins", "step_dependency_check_after_del": "trg_dep_del",
              "step_file_check_ready_upd": "trg_file_state_upd", "step_file_check_ready_ins": "trg_file_ins",
              "step_node_check_ready_detached": "trg_node_detached", "step_flag_check_after_duration": "trg_duration",
